@@ -457,6 +457,8 @@ def run(tier, seed, result):
                                              st))
     from . import c05_sched
     notes.append(c05_sched.run(tier, seed, result))
+    from . import c05_threads
+    notes.append(c05_threads.run(tier, seed, result))
     result.assumptions += [
         'background handler tasks are run to completion (FIFO) before '
         'comparison',
